@@ -178,6 +178,38 @@ static int c11_case(const int * keys, int n, int dmask, int vmask, char * msg, s
   return bad;
 }
 
+/* two thread lifetimes on the same storage (a recycled thread record): the first thread leaves a value under key k1, which
+   has no destructor; the second stores under k2 only, while a different key of k2's leaf that occupies k1's slot position
+   has a destructor.  That destructor must not be called with anything but NULL (the second thread never stored there). */
+static int c11_recycled_case(int k1, int k2, char * msg, size_t msz) {
+  int kd = (k2 & ~15) | (k1 & 15);
+  if (kd == k2) return 0;
+  myth_tls_key_allocator_init(KA);
+  for (int k = 0; k < 1024; k++) { int got = myth_tls_key_allocator_alloc(KA, k == kd ? d0 : (k == k2 ? d1 : 0)); if (got != k) { snprintf(msg, msz, "key order"); return 1; } }
+  static myth_tls_tree_t t[1];
+  myth_tls_tree_init(t); myth_tls_tree_set(t, k1, (void *)(long)(0x9000 + k1)); ndlog = 0; myth_tls_tree_fini(t, KA);     /* first lifetime */
+  myth_tls_tree_init(t); myth_tls_tree_set(t, k2, (void *)(long)(0x7000 + k2));
+  void * g = myth_tls_tree_get(t, kd);
+  if (g != NULL) { snprintf(msg, msz, "second thread reads %p under key %d which it never stored (left behind by the previous owner of the record under key %d)", g, kd, k1); return 1; }
+  ndlog = 0; myth_tls_tree_fini(t, KA);                                                                                  /* second lifetime ends */
+  for (int j = 0; j < ndlog && j < 64; j++) {
+    if (dlog[j].fn == 0 && dlog[j].val != NULL) { snprintf(msg, msz, "destructor of key %d, which the exiting thread never stored, was called with %p (a value the previous owner of the record left under key %d)", kd, dlog[j].val, k1); return 1; }
+    if (dlog[j].fn == 1 && dlog[j].val != NULL && dlog[j].val != (void *)(long)(0x7000 + k2)) { snprintf(msg, msz, "destructor of key %d called with foreign value %p", k2, dlog[j].val); return 1; }
+  }
+  int c2 = 0; for (int j = 0; j < ndlog && j < 64; j++) if (dlog[j].fn == 1 && dlog[j].val == (void *)(long)(0x7000 + k2)) c2++;
+  if (c2 != 1) { snprintf(msg, msz, "destructor of key %d called %d times with its value", k2, c2); return 1; }
+  return 0;
+}
+static int c11_recycled_forked(int k1, int k2, char * msg, size_t msz) {
+  int pfd[2]; if (pipe(pfd)) return 2;
+  pid_t pid = fork();
+  if (pid == 0) { close(pfd[0]); char m[300] = ""; int r = c11_recycled_case(k1, k2, m, sizeof m); if (write(pfd[1], m, strlen(m) + 1) < 0) {} _exit(r); }
+  close(pfd[1]); ssize_t k = read(pfd[0], msg, msz - 1); if (k < 0) k = 0; msg[k] = 0; close(pfd[0]);
+  int st = 0; waitpid(pid, &st, 0);
+  if (WIFSIGNALED(st) || (WIFEXITED(st) && WEXITSTATUS(st) > 1)) { snprintf(msg, msz, "thread exit crashed / sanitizer abort on a recycled record"); return 1; }
+  return WIFEXITED(st) ? WEXITSTATUS(st) : 1;
+}
+
 static int c11_forked(const int * keys, int n, int dmask, int vmask, char * msg, size_t msz) {
   /* ASan aborts the process on an out-of-bounds access: run each batch of cases in a child */
   int pfd[2]; if (pipe(pfd)) return 2;
@@ -223,6 +255,14 @@ static void c11_units(int tier) {
       if (sz == 1) break;
     }
   }
+  /* recycled records: every ordered pair of representative keys with different slot positions */
+  long rc = 0;
+  for (int a = 0; a < 13 && SQ.nfound < 12; a++) for (int b = 0; b < 13; b++) {
+    if ((REP[a] & 15) == (REP[b] & 15)) continue;
+    int r = c11_recycled_forked(REP[a], REP[b], msg, sizeof msg); rc++; SQ.states++; SQ.evaluations++; SQ.transitions += 6;
+    if (r && SQ.nfound < 12) { char key[200]; snprintf(key, sizeof key, "recycled record: first thread leaves a value under key %d (no destructor), second stores only under key %d", REP[a], REP[b]); char arg[80]; snprintf(arg, sizeof arg, "--part c11 --recycled %d:%d", REP[a], REP[b]); sq_found(key, arg, "%s", msg); }
+  }
+  sq_detail("%ld recycled-record cases; ", rc);
   sq_detail("%ld destructor cases: every single key 0..1023, every subset of size <= %d of 13 representative keys x destructor mask x NULL/non-NULL mask; each in a forked child under ASan; ", cases, maxsz);
 }
 
@@ -281,16 +321,17 @@ static void c11_library(void) {
 }
 
 int main(int argc, char ** argv) {
-  const char * stats = 0, * part = "c10", * cs = 0, * whole = 0; int tier = 0;
+  const char * stats = 0, * part = "c10", * cs = 0, * whole = 0, * recyc = 0; int tier = 0;
   for (int i = 1; i < argc; i++) {
     if (!strcmp(argv[i], "--stats")) stats = argv[++i]; else if (!strcmp(argv[i], "--tier")) tier = !strcmp(argv[++i], "thorough");
-    else if (!strcmp(argv[i], "--part")) part = argv[++i]; else if (!strcmp(argv[i], "--case")) cs = argv[++i]; else if (!strcmp(argv[i], "--whole")) whole = argv[++i];
+    else if (!strcmp(argv[i], "--part")) part = argv[++i]; else if (!strcmp(argv[i], "--case")) cs = argv[++i]; else if (!strcmp(argv[i], "--whole")) whole = argv[++i]; else if (!strcmp(argv[i], "--recycled")) recyc = argv[++i];
   }
   if (cs) {  /* replay one C11 unit case: n:k0,k1,k2:dmask:vmask */
     int n, k[3] = {0, 0, 0}, dm, vm; char msg[400] = "";
     if (sscanf(cs, "%d:%d,%d,%d:%d:%d", &n, &k[0], &k[1], &k[2], &dm, &vm) != 6 && sscanf(cs, "%d:%d:%d:%d", &n, &k[0], &dm, &vm) != 4) return 2;
     int r = c11_forked(k, n, dm, vm, msg, sizeof msg); printf("case %s -> %s %s\n", cs, r ? "VIOLATION" : "ok", msg); return r ? 1 : 0;
   }
+  if (recyc) { int a, b; char msg[400] = ""; sscanf(recyc, "%d:%d", &a, &b); int r = c11_recycled_forked(a, b, msg, sizeof msg); printf("recycled %s -> %s %s\n", recyc, r ? "VIOLATION" : "ok", msg); return r ? 1 : 0; }
   if (whole) { static const int sets[4][3] = { {0, 1, 2}, {3, 17, 40}, {5, 100, 300}, {256, 700, 1023} }; int s, m; char msg[400] = ""; sscanf(whole, "%d:%d", &s, &m); int r = c11_whole(sets[s], 3, m, msg, sizeof msg); printf("whole %s -> %s %s\n", whole, r ? "VIOLATION" : "ok", msg); return r ? 1 : 0; }
   char sp[64]; snprintf(sp, sizeof sp, "build/%s/stats.json", part); if (!stats) stats = sp;
   if (!strcmp(part, "c10")) {
